@@ -1200,3 +1200,10 @@ mod test {
         assert!(reader_s.recv_view(|x| *x).is_ok());
     }
 }
+
+// Verification hook (off by default): contracts and proof harnesses kept outside the repository.
+#[cfg(feature = "multiqueue2_verif")]
+#[allow(dead_code, unused_imports, unused_variables, unused_mut)]
+mod verif_contracts {
+    include!(concat!(env!("MULTIQUEUE2_VERIF_DIR"), "/broadcast.rs"));
+}
